@@ -201,23 +201,26 @@ func (di *dupInfo) inOctets(s *slip.Scope, seq slip.Octets, depth int) slip.Obje
 	return slip.Octets(nba)
 }
 
-func (di *dupInfo) has(s *slip.Scope, v slip.Object, d2 int) bool {
+func (di *dupInfo) has(s *slip.Scope, v slip.Object, d2 int) (dup bool) {
 	if di.key != nil {
 		v = di.key.Call(s, slip.List{v}, d2)
 	}
 	if di.test == nil {
 		for _, u := range di.uniq {
 			if slip.ObjectEqual(v, u) {
-				return true
+				dup = true
+				break
 			}
 		}
 	} else {
 		for _, u := range di.uniq {
 			if di.test.Call(s, slip.List{v, u}, d2) != nil {
-				return true
+				dup = true
+				break
 			}
 		}
 	}
+	// A duplicate is compared against as well, a test need not be transitive.
 	di.uniq = append(di.uniq, v)
-	return false
+	return
 }
